@@ -50,7 +50,7 @@ type c16Case struct {
 }
 
 // (indices are part of saved cases: append only) - the last name itself ends in what may be a configured extension
-var c16Names = []string{"/a", "/b", "/sub/c", "/d", "/e.jet"}
+var c16Names = []string{"/a", "/b", "/sub/c", "/d", "/e.jet", "/B", "/Sub/c"}
 
 // c16Own: path is name itself or name plus a suffix (an extension, dotted or not); no name of the pool is the
 // beginning of another one
@@ -125,6 +125,7 @@ func genC16(t *rapid.T) c16Case {
 	c.ForeignCache = c.Dev && c.RecCache && rapid.Bool().Draw(t, "foreignCache")
 	c.Refusing = !c.Dev && c.RecCache && rapid.IntRange(0, 3).Draw(t, "refusingCache") == 0
 	n := rapid.IntRange(2, 20).Draw(t, "nops")
+	lastExec := -1
 	for i := 0; i < n; i++ {
 		op := c16Op{Name: rapid.IntRange(0, len(c16Names)-1).Draw(t, "name")}
 		k := rapid.IntRange(0, 15).Draw(t, "op")
@@ -157,14 +158,18 @@ func genC16(t *rapid.T) c16Case {
 			op.Op = "get"
 		case k == 13:
 			op.Op = "parse"
-			op.Variant = rapid.SampledFrom([]string{"ext", "import", "text"}).Draw(t, "parsevariant")
+			op.Variant = rapid.SampledFrom([]string{"ext", "import", "text", "ext-rel", "import-rel"}).Draw(t, "parsevariant")
 			op.Dep = rapid.IntRange(0, len(c16Names)-1).Draw(t, "dep")
-			op.Self = op.Variant != "text" && rapid.IntRange(0, 2).Draw(t, "parseUnderOwnName") == 0
+			op.Self = (op.Variant == "ext" || op.Variant == "import") && rapid.IntRange(0, 2).Draw(t, "parseUnderOwnName") == 0
 		case k == 14:
 			op.Op = "exec"
+			lastExec = op.Name
 		default:
 			// execute again the template object an earlier get / exec of this name returned
 			op.Op = "reexec"
+			if lastExec >= 0 && rapid.IntRange(0, 3).Draw(t, "reexecLastExecuted") > 0 {
+				op.Name = lastExec
+			}
 		}
 		c.Ops = append(c.Ops, op)
 	}
@@ -376,8 +381,17 @@ func judgeC16(c c16Case) (v core.Verdict) {
 				src = fmt.Sprintf(`{{extends %q}}`, c16Names[op.Dep])
 			case "import":
 				src = fmt.Sprintf(`{{import %q}}P`, c16Names[op.Dep])
+			case "ext-rel": // the name handed to Parse and the name it refers to are both relative (to the root)
+				src = fmt.Sprintf(`{{extends %q}}`, c16Names[op.Dep][1:])
+			case "import-rel":
+				src = fmt.Sprintf(`{{import %q}}P`, "./"+c16Names[op.Dep][1:])
 			}
-			_, o := jetrun.Parse(s, "/parsed.jet", src)
+			parseName := "/parsed.jet"
+			if strings.HasSuffix(op.Variant, "-rel") {
+				parseName = "parsed.jet"
+				v.Label("parse-under-a-relative-name")
+			}
+			_, o := jetrun.Parse(s, parseName, src)
 			if o.Panicked {
 				v.Failf("%s: Set.Parse panicked: %s", hist(i), o)
 				return
@@ -407,12 +421,12 @@ func judgeC16(c c16Case) (v core.Verdict) {
 				dn := c16Names[op.Dep]
 				for _, e := range loaderEvents() {
 					if c16Own(e.Path, dn) {
-						v.Failf("%s: %s is cached, but Set.Parse of a template that %ss it asked the loader for it: %v", hist(i), dn, op.Variant, loaderEvents())
+						v.Failf("%s: %s is cached, but Set.Parse of a template that refers to it (%s) asked the loader for it: %v", hist(i), dn, op.Variant, loaderEvents())
 						return
 					}
 				}
 				if o.Err != nil {
-					v.Failf("%s: %s is cached, but Set.Parse of a template that %ss it failed: %v", hist(i), dn, op.Variant, o.Err)
+					v.Failf("%s: %s is cached, but Set.Parse of a template that refers to it (%s) failed: %v", hist(i), dn, op.Variant, o.Err)
 					return
 				}
 				v.Label("parse-referencing-cached-template")
@@ -421,7 +435,7 @@ func judgeC16(c c16Case) (v core.Verdict) {
 			// so a later lookup of a not-cached name must go to the loader again
 		case "reexec":
 			h, ok := held[op.Name]
-			if !ok || !c.Dev || (h.f.variant != "inc" && h.f.variant != "iie" && h.f.variant != "text") {
+			if !ok || !(c.Dev || c.Refusing) || (h.f.variant != "inc" && h.f.variant != "iie" && h.f.variant != "text") {
 				continue
 			}
 			v.Label("reexec-held-template:" + h.f.variant)
@@ -560,7 +574,10 @@ func judgeC16(c c16Case) (v core.Verdict) {
 					m.status[op.Name] = stNot
 				}
 			} else if c.Refusing {
-				// nothing was admitted: the next lookup is as cold as this one
+				// nothing was admitted: the next lookup is as cold as this one (the application may keep the object)
+				if f, ok := m.current(op.Name); ok {
+					held[op.Name] = heldTpl{t, f}
+				}
 			} else if !c.Dev {
 				m.status[op.Name] = stCached
 				m.ptr[op.Name] = t
